@@ -24,12 +24,14 @@ pub spec const LP: u8 = 0x28;
 pub spec const RP: u8 = 0x29;
 pub spec const BS: u8 = 0x5c;
 pub spec const CR: u8 = 0x0d;
+/// the reader follows at most this many levels of nested parentheses (reader.rs MAX_BRACKET); deeper ones are written escaped
+pub spec const CAP: int = 100;
 
 pub open spec fn h(s: Seq<u8>, i: int) -> int decreases i {
     if i <= 0 { 0 } else {
         let p = h(s, i - 1);
         let c = s[i - 1];
-        if c == LP { p + 1 } else if c == RP && p > 0 { p - 1 } else { p }
+        if c == LP { if p < CAP { p + 1 } else { p } } else if c == RP && p > 0 { p - 1 } else { p }
     }
 }
 pub open spec fn m(s: Seq<u8>, i: int) -> int decreases s.len() - i {
@@ -37,7 +39,7 @@ pub open spec fn m(s: Seq<u8>, i: int) -> int decreases s.len() - i {
 }
 pub open spec fn esc(s: Seq<u8>, k: int) -> bool {
     let c = s[k];
-    c == BS || c == CR || (c == RP && h(s, k) == 0) || (c == LP && m(s, k + 1) == h(s, k + 1))
+    c == BS || c == CR || (c == RP && h(s, k) == 0) || (c == LP && (h(s, k) >= CAP || m(s, k + 1) == h(s, k + 1)))
 }
 pub open spec fn render_byte(s: Seq<u8>, k: int) -> Seq<u8> {
     if esc(s, k) { seq![BS, if s[k] == CR { 0x72u8 } else { s[k] }] } else { seq![s[k]] }
@@ -100,24 +102,24 @@ pub open spec fn lit_stack(s: Seq<u8>, i: int) -> Seq<usize> decreases i {
     if i <= 0 { Seq::<usize>::empty() } else {
         let p = lit_stack(s, i - 1);
         let c = s[i - 1];
-        if c == LP { p.push((i - 1) as usize) } else if c == RP && p.len() > 0 { p.drop_last() } else { p }
+        if c == LP { if p.len() < CAP { p.push((i - 1) as usize) } else { p } } else if c == RP && p.len() > 0 { p.drop_last() } else { p }
     }
 }
 pub open spec fn lit_esc1(s: Seq<u8>, i: int) -> Seq<usize> decreases i {
     if i <= 0 { Seq::<usize>::empty() } else {
         let e = lit_esc1(s, i - 1);
         let c = s[i - 1];
-        if (c == RP && lit_stack(s, i - 1).len() == 0) || c == BS || c == CR { e.push((i - 1) as usize) } else { e }
+        if (c == RP && lit_stack(s, i - 1).len() == 0) || c == BS || c == CR || (c == LP && lit_stack(s, i - 1).len() >= CAP) { e.push((i - 1) as usize) } else { e }
     }
 }
 pub open spec fn lit_escapes(s: Seq<u8>) -> Seq<usize> { lit_esc1(s, s.len() as int) + lit_stack(s, s.len() as int) }
 
 pub open spec fn open_at(s: Seq<u8>, k: int, i: int) -> bool {
-    0 <= k < i && s[k] == LP && forall|j: int| k < j <= i ==> h(s, j) > h(s, k)
+    0 <= k < i && s[k] == LP && h(s, k) < CAP && forall|j: int| k < j <= i ==> h(s, j) > h(s, k)
 }
 pub open spec fn esc1(s: Seq<u8>, k: int) -> bool {
     let c = s[k];
-    c == BS || c == CR || (c == RP && h(s, k) == 0)
+    c == BS || c == CR || (c == RP && h(s, k) == 0) || (c == LP && h(s, k) >= CAP)
 }
 
 pub proof fn lemma_h_nonneg(s: Seq<u8>, i: int) ensures h(s, i) >= 0 decreases i { if i > 0 { lemma_h_nonneg(s, i - 1); } }
@@ -144,7 +146,7 @@ proof fn lemma_m_le(s: Seq<u8>, i: int) requires 0 <= i <= s.len() ensures m(s, 
 { if i < s.len() { lemma_m_le(s, i + 1); } }
 
 proof fn lemma_open_is_esc(s: Seq<u8>, k: int)
-    requires 0 <= k < s.len(), s[k] == LP
+    requires 0 <= k < s.len(), s[k] == LP, h(s, k) < CAP
     ensures open_at(s, k, s.len() as int) <==> (m(s, k + 1) == h(s, k + 1))
 {
     let n = s.len() as int;
@@ -194,7 +196,7 @@ proof fn lemma_stack_inv(s: Seq<u8>, i: int)
         let e = lit_esc1(s, i);
         let c = s[j];
         assert(old_p.len() == h(s, j));
-        if c == LP {
+        if c == LP && h(s, j) < CAP {
             assert forall|k: int| open_at(s, k, i) implies 0 <= h(s, k) < p.len() && p[h(s, k)] == k by {
                 if k < j { assert(open_at(s, k, j)); assert(h(s, k) < h(s, j)); }
             }
@@ -202,6 +204,12 @@ proof fn lemma_stack_inv(s: Seq<u8>, i: int)
                 if t < old_p.len() { assert(open_at(s, old_p[t] as int, j)); }
             }
             assert(e == old_e);
+        } else if c == LP {
+            // at the cap: written escaped, opens nothing, the height stays
+            assert(p == old_p && h(s, i) == h(s, j));
+            assert forall|k: int| open_at(s, k, i) implies 0 <= h(s, k) < p.len() && p[h(s, k)] == k by { assert(k != j); assert(open_at(s, k, j)); }
+            assert forall|t: int| 0 <= t < p.len() implies open_at(s, #[trigger] p[t] as int, i) && h(s, p[t] as int) == t by { assert(open_at(s, old_p[t] as int, j)); }
+            assert forall|k: int| 0 <= k < i implies (e.contains(k as usize) <==> esc1(s, k)) by { lemma_push_contains(old_e, j as usize, k as usize); }
         } else if c == RP {
             if old_p.len() > 0 {
                 assert forall|k: int| open_at(s, k, i) implies 0 <= h(s, k) < p.len() && p[h(s, k)] == k by {
@@ -240,7 +248,7 @@ pub proof fn lemma_first_pass(s: Seq<u8>)
     let l = lit_escapes(s);
     assert(l =~= e1 + p);
     assert forall|k: int| 0 <= k < n implies (l.contains(k as usize) <==> esc(s, k)) by {
-        if s[k] == LP { lemma_open_is_esc(s, k); }
+        if s[k] == LP && h(s, k) < CAP { lemma_open_is_esc(s, k); }
         assert(e1.contains(k as usize) <==> esc1(s, k));
         if l.contains(k as usize) {
             let w = choose|w: int| 0 <= w < l.len() && l[w] == k as usize;
